@@ -5,6 +5,71 @@ import os
 import vf
 
 
+def run_level(ctx, binp):
+    """Run()-level: wrapped reference peers as OS processes realise process fates; Trace_Verdict accepts."""
+    import random
+    g = ctx.tlc("Gen_VerdictRun", "Gen_VerdictRun.cfg", timeout=600)
+    allscn = g.json_lines("SCN ")
+    for s in allscn:
+        f = s["fault"]
+        s["fault"] = ":".join(str(x) for x in f)
+        s["failing"] = sorted(s["failing"])
+        s["flaky"] = sorted(s["flaky"])
+    allscn = [s for s in allscn if not (set(s["failing"]) & set(s["flaky"]))]
+    allscn.sort(key=lambda s: json.dumps(s, sort_keys=True))
+    rnd = random.Random(ctx.seed)
+    pick = allscn if not ctx.quick else rnd.sample(allscn, min(len(allscn), 48))
+    # always include the scenario families that matter most
+    must = [s for s in allscn if s["fault"] in ("none", "exitAfterReq:2:0", "exitAfterResp:1:0", "failstart:1") and not s["failing"] and not s["flaky"]]
+    pick = must + [s for s in pick if s not in must]
+    scnp, outp = os.path.join(ctx.build, "c04run.scn"), os.path.join(ctx.build, "c04run.out")
+    vf.write_ndjson(scnp, pick)
+    d = os.path.join(ctx.build, "c04run")
+    os.makedirs(d, exist_ok=True)
+    ctx.run_harness(binp, "TestVerifC04Run", env=dict(VERIF_SCN=scnp, VERIF_OUT=outp, VERIF_DIR=d), timeout=3000)
+    res = vf.read_ndjson(outp)
+    recs = []
+    for r in res:
+        s = r["scn"]
+        if r.get("hang"):
+            raise vf.Machinery("Run() did not return within 90 s for %s" % json.dumps(s))
+        answered, tampered = set(), set()
+        peer_fault = any(e.get("ev") == "garbage" or (e.get("ev") == "exit" and e.get("code")) for e in r.get("log") or [])
+        for e in r.get("log") or []:
+            if e.get("ev") == "resp":
+                nm = e["name"].rsplit("/", 1)[-1]
+                answered.add(nm)
+                if e.get("tampered"):
+                    tampered.add(nm)
+        cases = []
+        for i in range(1, s["n"] + 1):
+            nm = "c%d" % i
+            if s["mode"] == "server":
+                # the wrapped server logs nothing per case; a started reference server answers everything
+                fate = "pass" if s["fault"] == "none" else "setupErr"
+            else:
+                fate = "assertFail" if nm in tampered else ("pass" if nm in answered else "noResult")
+            mark = "failing" if i in s["failing"] else ("flaky" if i in s["flaky"] else "none")
+            cases.append(dict(fate=fate, mark=mark, fb=False))
+        recs.append(dict(cases=cases, ok=bool(r["ok"] and not r["err"]), peerFault=peer_fault, scn=s, output=r.get("output"), err=r.get("err")))
+    trp = os.path.join(ctx.build, "c04run.trace")
+    vf.write_ndjson(trp, [dict(cases=x["cases"], ok=x["ok"], peerFault=x["peerFault"]) for x in recs])
+    tr = ctx.tlc("Trace_Verdict", "Trace_Verdict.cfg", workers=1, env=dict(VERIF_TRACE=trp), timeout=900)
+    if not tr.lines("CONSUMED "):
+        raise vf.Machinery("Trace_Verdict did not consume the file")
+    for ln in tr.lines("REJECT "):
+        x = recs[int(ln) - 1]
+        ctx.candidate(dict(level="run", mode=x["scn"]["mode"], fault=x["scn"]["fault"].split(":")[0], ok=x["ok"]),
+                      "Run() returned ok=%s err=%r but the realised fates %s require %s; scenario=%s output=%s" % (
+                          x["ok"], x["err"], json.dumps(x["cases"]), not x["ok"], json.dumps(x["scn"]), x["output"]), x)
+    ctx.cov["traces_validated_against_impl"] += len(recs)
+    ctx.cov["evaluations"] += len(recs)
+    ctx.notes["run_level"] = dict(runs=len(recs), accepted=len(recs) - len(tr.lines("REJECT ")),
+                                  successes=sum(1 for x in recs if x["ok"]))
+    if recs:
+        ctx.sample(dict(run_level=recs[0]["scn"], cases=recs[0]["cases"], ok=recs[0]["ok"]))
+
+
 def run(ctx):
     q = ctx.quick
     mc = ctx.tlc("Verdict", "MC_Verdict.cfg", timeout=1800)
@@ -15,7 +80,7 @@ def run(ctx):
         scns = [json.load(open(ctx.replay))["scenario"]["scn"]]
     scnp, outp = os.path.join(ctx.build, "c04.scn"), os.path.join(ctx.build, "c04.out")
     vf.write_ndjson(scnp, scns)
-    binp = ctx.go_test_bin("internal/app/connectconformance", ["c04"])
+    binp = ctx.go_test_bin("internal/app/connectconformance", ["c04", "peers"])
     ctx.run_harness(binp, "TestVerifC04Report", env=dict(VERIF_SCN=scnp, VERIF_OUT=outp), timeout=3000)
     res = vf.read_ndjson(outp)
     if not any(r.get("summary") for r in res):
@@ -33,6 +98,8 @@ def run(ctx):
                    spec_success=r["scn"]["success"], obs_success=r["obs"]["success"],
                    has_noRun=any(f in ("couldNotRun", "absent") for f in fates), first_why=r["why"][0].split(",")[0][:40])
         ctx.candidate(key, "report(): %s; cases=%s" % ("; ".join(r["why"]), json.dumps(r["scn"]["cases"])), r)
+    if not ctx.replay:
+        run_level(ctx, binp)
     ctx.cov["evaluations"] += len(scns)
     ctx.cov["traces_validated_against_impl"] += len(scns)
     ctx.cov["distinct_nontrivial"] += sum(1 for s in scns if not s["success"] or s["expected"])
@@ -43,4 +110,5 @@ def run(ctx):
                        "known-flaky} x {feedback} to 3 cases (feedback only where a peer saw the case), materialised through the real "
                        "assert/failed/failedToStart/failRemaining/setOutcome/recordSideband API in seeded order, report() called, verdict + "
                        "named cases + totals compared; non-trivial = not a success or has an expected failure. Exhaustive for 3 cases.")
-    ctx.assumptions += ["AsImplemented_CouldNotRunCountedNotNamed: could-not-run cases are reported by count, not by name"]
+    ctx.assumptions += ["AsImplemented_PeerProtocolErrorFailsRun: garbage on a peer's stdout or a non-zero exit status fails the run even if all cases were met",
+                        "AsImplemented_CouldNotRunCountedNotNamed: could-not-run cases are reported by count, not by name"]
